@@ -151,6 +151,14 @@ func (sc *specCtx) eval(e ast.Expr) Value {
 		if v, ok := sc.en.goConst(sc.pc.Pkg, x.Name); ok {
 			return v
 		}
+		// a package-level variable: aggregates by address, others by value
+		if gv := sc.en.lookupGlobal(sc.pc.Pkg, x.Name); gv != nil {
+			r := sc.en.globalRegion(gv)
+			if isAggType(r.typ) {
+				return PtrV{R: r}
+			}
+			return sc.en.load(sc.st, PtrV{R: r}, r.typ)
+		}
 		sc.errorf(e, "unknown identifier %s", x.Name)
 	case *ast.StarExpr:
 		v := sc.eval(x.X)
@@ -591,7 +599,7 @@ func (sc *specCtx) evalCall(x *ast.CallExpr) Value {
 			return v.Cap
 		}
 		sc.errorf(x, "cap of unsupported value")
-	case "forall":
+	case "forall", "forallq":
 		// forall(i, lo, hi, body): lo <= i < hi
 		id, ok := x.Args[0].(*ast.Ident)
 		if !ok || len(x.Args) != 4 {
@@ -600,7 +608,7 @@ func (sc *specCtx) evalCall(x *ast.CallExpr) Value {
 		lo, hi := sc.evalTerm(x.Args[1]), sc.evalTerm(x.Args[2])
 		l, ok1 := lo.ConstInt()
 		h, ok2 := hi.ConstInt()
-		if ok1 && ok2 && h-l <= 512 {
+		if ok1 && ok2 && h-l <= 512 && name != "forallq" {
 			var cs []*Term
 			for k := l; k < h; k++ {
 				n := sc.child()
@@ -613,8 +621,24 @@ func (sc *specCtx) evalCall(x *ast.CallExpr) Value {
 		n := sc.child()
 		n.env[id.Name] = bv
 		sc.st.quantDepth++ // no state-level facts about terms mentioning the bound variable
+		mark := len(sc.st.facts)
 		body := n.evalBool(x.Args[3])
 		sc.st.quantDepth--
+		// typing facts the models added while evaluating the body (byte ranges of hash outputs,
+		// lengths >= 0, ...) that mention the bound variable must not escape the quantifier
+		if len(sc.st.facts) > mark {
+			leaked := append([]*Term(nil), sc.st.facts[mark:]...)
+			sc.st.facts = sc.st.facts[:mark]
+			mm := map[int]bool{}
+			for _, lf := range leaked {
+				if mentions(lf, bv, mm) {
+					// dropped: a typing fact about a term that only exists under the quantifier
+					continue
+				} else {
+					sc.st.facts = append(sc.st.facts, lf)
+				}
+			}
+		}
 		return Forall(bv, Imp(And(Le(lo, bv), Lt(bv, hi)), body))
 	case "all":
 		// all(x, body): unbounded integer quantifier (axioms)
@@ -808,6 +832,20 @@ func (sc *specCtx) evalCall(x *ast.CallExpr) Value {
 		return sc.st.entropyReads[k]
 	case "fresh":
 		return sc.freshPred(x, sc.eval(x.Args[0]))
+	case "sameslice":
+		// sameslice(a, b): the two slices start at the same element of the same array
+		a, ok1 := sc.eval(x.Args[0]).(SliceV)
+		b, ok2 := sc.eval(x.Args[1]).(SliceV)
+		if !ok1 || !ok2 {
+			sc.errorf(x, "sameslice of non-slices")
+		}
+		if a.R == nil || b.R == nil || a.R != b.R {
+			return False()
+		}
+		if _, c := pathPrefixEq(a.Path, b.Path); !c || len(a.Path) != len(b.Path) {
+			return False()
+		}
+		return Eq(a.Off, b.Off)
 	case "dyntype":
 		v, ok := sc.eval(x.Args[0]).(IfaceV)
 		if !ok {
